@@ -311,13 +311,15 @@ pub fn run(s: &Scn, ctx: &mut RunCtx) -> RunOutput {
                         _ => None,
                     })
                     .collect();
-                if asked.len() != 1 {
-                    world::violation("C05.backoff", "not_asked_once", format!("request {}: before retry {} the backoff function was asked {} times", i, k, asked.len()));
+                // the property only asks that the wait is at least the configured backoff: an
+                // implementation may consult the function more than once, never zero times
+                let acceptable: Vec<i64> = asked.iter().filter(|(idx, _)| *idx == k as i64 - 1 || *idx == k as i64).map(|(_, a)| *a).collect();
+                if asked.is_empty() {
+                    world::violation("C05.backoff", "never_asked", format!("request {}: retry {} was made without asking the backoff function", i, k));
+                } else if acceptable.is_empty() {
+                    world::violation("C05.backoff", "wrong_index", format!("request {}: before retry {} the backoff function was only asked for attempts {:?}", i, k, asked.iter().map(|x| x.0).collect::<Vec<_>>()));
                 } else {
-                    let (idx, ans) = asked[0];
-                    if !(idx == k as i64 - 1 || idx == k as i64) {
-                        world::violation("C05.backoff", "wrong_index", format!("request {}: before retry {} the backoff function was asked for attempt {}", i, k, idx));
-                    }
+                    let ans = *acceptable.iter().min().unwrap();
                     let gap = c.start_us.saturating_sub(pe_us) as i64;
                     if gap < ans {
                         world::violation("C05.backoff", "too_short", format!("request {}: retry {} started {}us after the failed attempt; configured backoff {}us", i, k, gap, ans));
@@ -335,8 +337,9 @@ pub fn run(s: &Scn, ctx: &mut RunCtx) -> RunOutput {
                             _ => None,
                         })
                         .collect();
-                    if !(grants.len() == 1 && grants[0] == 1) {
-                        world::violation("C05.budget", "retry_without_grant", format!("request {}: retry {} made with budget answers {:?} (need exactly one grant)", i, k, grants));
+                    // no grant, no retry: the budget was asked and its last answer was a grant
+                    if grants.last() != Some(&1) {
+                        world::violation("C05.budget", "retry_without_grant", format!("request {}: retry {} made with budget answers {:?} (the last answer before a retry must be a grant)", i, k, grants));
                     }
                 }
             }
